@@ -122,13 +122,34 @@ def category_rule(rep, prog, oks):
         rep.violation("R4", "TypeCoding:display", "TypeCoding is displayed as %s, expected each variant by its own letter" % words)
 
 
+def shown_rule(rep, prog, oks):
+    rid = rep.rule("R5", "both carriers show the decoded identification in full: no format spec with a precision (which truncates text) on the path that renders it")
+    from . import c11, tracker
+    idx = c11.site_index(prog)
+    reps = tracker.representative_paths(oks)
+    n = 0
+    for label, p in sorted(reps.items()):
+        if "ME::AircraftIdentification" not in label and "BDS::AircraftIdentification" not in label:
+            continue
+        n += 1
+        ip, outs = c11.run_fmt(prog, p, merge=True)
+        bad = c11.truncating_specs(idx, outs)
+        rep.instance(rid, label, sample={"frame": label, "render paths": len(outs), "truncating specs": len(bad)} if n == 1 else None)
+        for site, pc, expr, ty, _v in bad:
+            rep.violation("R5", "truncated:%s:%s" % ("::".join(site["item"][-2:]), expr),
+                          "%s: `%s` (%s) is printed with a precision (%r): identifications using all eight characters are cut off (%s:%d)"
+                          % (label, expr, ty, pc.get("precision"), site["span"]["file"], site["span"]["lo"][0]))
+    rep.floor("identification carriers rendered", 3, n)
+
+
 def run(rep, tier, replay=None):
     prog = facts.load("std")
     run_, oks, errs = decode_paths(prog, 14)
     chars_rule(rep, prog, oks)
     table_rule(rep, prog)
     category_rule(rep, prog, oks)
+    shown_rule(rep, prog, oks)
     return rep.finish(
         "From the decode model: R1 the identification of ME types 1-4 and of BDS 2,0 is read from f[40..88) (eight 6-bit characters); R3 in every "
         "alternative exactly the characters whose code is 32 are dropped and each kept character depends on its own 6 bits, in order; R2 the "
-        "evaluated 64-entry table equals the Annex 10 set; R4 type coding map and category slice. BDS selection by first byte 0x20 is C10-R1.")
+        "evaluated 64-entry table equals the Annex 10 set; R4 type coding map and category slice; R5 the renderer prints the identification without a truncating format spec. BDS selection by first byte 0x20 is C10-R1.")
